@@ -649,6 +649,11 @@ func c09Verify(c *core.Ctx, e *c09Ev, st *c09Stats) bool {
 				if imgOK && nullOK && bitmapOK {
 					// the streamer's path: the library's own slices and bitmaps
 					walk(name, img, presentBM.Bit, nullBM.Bit, exp)
+					// decoding the cells must leave the image as the master encoded it
+					if !bytes.Equal(img, exp.Bytes) {
+						fail("rows-image-changed-by-decoding:"+kind, fmt.Sprintf("row %d %s image: after its cells were decoded the image is %s, encoded %s", ri, name, c09Clip(img), c09Clip(exp.Bytes)),
+							map[string]interface{}{"row": ri, "side": name})
+					}
 					return
 				}
 				// attribution: does the value decoder at least agree with the encoder on the true image?
